@@ -310,6 +310,9 @@ def r6(tree, rep):
 
 
 def run(tree, rep, tier):
+    from .. import round9 as _r9
+    _r9.delayed_calls_owned(tree, rep, "C16.R7")
+    _r9.disconnect_sites(tree, rep, "C16.R7", ("_signal_reconnect", "abandon_connection"))
     prog = Program(tree)
     r1(prog, rep)
     r2(tree, rep)
